@@ -11,6 +11,17 @@ def line(entry, stream, full=True):
     return "lzd %s %s %s" % (entry, "1" if full else "0", hexb(stream))
 
 
+class BigData:
+    """Expected output of a 16 MiB boundary stream: kept as its printed form H<len>:<fnv64> (computed once)."""
+
+    def __init__(self, data):
+        self.n = len(data)
+        self.shown = show_bytes(data, False)
+
+    def __len__(self):
+        return self.n
+
+
 class C11(LZCheckMixin, PropertyCheck):
     pid = "C11"
     source_tables = ["LZ_DECODE_CONSTS"]   # tables / constants regenerated from /repo's source (gen/srctables.py)
@@ -19,7 +30,8 @@ class C11(LZCheckMixin, PropertyCheck):
             "start) for LZ10 and LZ11; random legal token sequences with every length form (3..65808), displacement 1, the window edge, "
             "overlapping copies, both LZ11 header forms, through the four entry points (LZ10, LZ13, and both through CompressionFormat), "
             "wrapped (0x13), bare and stored (type 0); every truncation of such streams (quick: of a sample), single-byte corruptions, "
-            "left-over bytes, overshooting last token, random bytes with plausible headers; announced size < 1 MiB. "
+            "left-over bytes, overshooting last token, random bytes with plausible headers; announced size < 1 MiB, plus LZ11 streams announcing "
+            "0xFFFFFF (plain / extended form) and 0x1000000 (extended form) and their truncations (output compared by length and FNV-64). "
             "Non-trivial = the stream is well-formed and contains a back-reference, or is one of the named error classes; distinct = distinct case.")
     assumptions = ["A-std: Vec, iterators and integer casts behave as documented",
                    "the output Vec is represented by its reversed list in the model"]
@@ -121,13 +133,29 @@ class C11(LZCheckMixin, PropertyCheck):
                 b[6] = rng.choice([0, 0, 1])
                 b[7] = 0
             add(rng.choice(["10", "13", "f10", "f13"]), bytes(b), "random-bytes")
+        # --- the 16 MiB boundary of the LZ11 size field: 0xFFFFFF is the largest size of the plain 24-bit form, 0x1000000
+        #     needs the extended form (0,0,0 + 32 bit); a literal and long-form references at displacement 1
+        #     (implementation + oracle only, output compared as H<len>:<fnv64>)
+        for size, ext, entry, wrap in (((1 << 24) - 1, False, "13", True), (1 << 24, True, "f13", True), ((1 << 24) - 1, True, "10", False)):
+            toks = [rng.getrandbits(8)]
+            left = size - 1
+            while left > 0:
+                ln = min(left, 65808)
+                if 0 < left - ln < 3:
+                    ln -= 3
+                toks.append((ln, 1))
+                left -= ln
+            s = encode_stream(11, toks, size, ext)
+            cases.append(Case("lzd %s 2 %s" % (entry, hexb((bytes([0x13, 1, 2, 3]) if wrap else b"") + s)), "size-boundary-16MiB"))
+            # ... and the same stream cut short by one byte must be an error
+            cases.append(Case("lzd %s 2 %s" % (entry, hexb((bytes([0x13, 1, 2, 3]) if wrap else b"") + s[:-1])), "size-boundary-16MiB"))
         # --- large outputs (implementation + oracle only): long-form references up to the announced size limit
         nbig = 6 if tier == "quick" else 40
         for _ in range(nbig):
             toks = random_tokens(rng, 11, 400, SIZE_LIMIT - 70000)
             s = encode_stream(11, toks, tokens_total(toks), rng.random() < 0.5)
             add("13", bytes([0x13, 0, 0, 0]) + s, "large-output", full=False)
-        return spread_heavy(cases, weight=lambda c: 0 if c.line.split(" ")[2] == "0" else self._actual_out(parse_hex(c.line.split(" ")[3])))
+        return spread_heavy(cases, weight=lambda c: 0 if c.line.split(" ")[2] in ("0", "2") else self._actual_out(parse_hex(c.line.split(" ")[3])))
 
     @staticmethod
     def _worst_out(s):
@@ -152,9 +180,19 @@ class C11(LZCheckMixin, PropertyCheck):
                 continue
         return min(C11._worst_out(s), 3000)
 
+    _big = {}
+
     def _expect(self, case):
         parts = case.line.split(" ")
-        return parts[1], parts[2] != "0", classify_entry(parts[1], parse_hex(parts[3]), limit=SIZE_LIMIT + 70000)
+        if parts[2] == "2":
+            # 16 MiB boundary streams: no limit on the announced size; the 16 MiB expansion and its hash are computed once
+            if case.line not in self._big:
+                if len(self._big) > 8:
+                    self._big.clear()
+                cls, what = classify_entry(parts[1], parse_hex(parts[3]), limit=None)
+                self._big[case.line] = (cls, BigData(what) if cls == "ok" else what)
+            return parts[1], False, self._big[case.line]
+        return parts[1], parts[2] == "1", classify_entry(parts[1], parse_hex(parts[3]), limit=SIZE_LIMIT + 70000)
 
     def nontrivial(self, case, impl_out):
         _, _, (cls, what) = self._expect(case)
@@ -168,7 +206,7 @@ class C11(LZCheckMixin, PropertyCheck):
         if cat not in ("ok", "err"):
             return "decompression neither returned Ok nor Err: %s" % impl_out[:60]
         if cls == "ok":
-            want = "ok " + show_bytes(what, full)
+            want = "ok " + (what.shown if isinstance(what, BigData) else show_bytes(what, full))
             if impl_out != want:
                 return "well-formed stream: expected the encoded data (%d bytes), got %s" % (len(what), impl_out[:80])
         elif cls == "err":
